@@ -1,7 +1,10 @@
 ------------------------------ MODULE ParamWire ------------------------------
 (***************************************************************************)
 (* From an ARGUMENT VALUE of a generated endpoint function to what is on   *)
-(* the wire, for one path / query / header / cookie parameter              *)
+(* the wire, for one path / query / header / cookie parameter - and for    *)
+(* one PROPERTY of a form-urlencoded or multipart request body model       *)
+(* ("form": data=body.to_dict(), encoded by httpx; "multipart":            *)
+(* files=body.to_multipart(), the per-kind transform_multipart macros)     *)
 (* (templates/endpoint_macros.py.jinja: header_params, cookie_params,      *)
 (* query_params; endpoint_module.py.jinja: "url".format(...);              *)
 (* property_templates/*: transform, transform_header; httpx's own          *)
@@ -20,19 +23,22 @@
 (***************************************************************************)
 EXTENDS Naturals, Sequences, FiniteSets, TLC
 
-Locs   == {"path", "query", "header", "cookie"}
+ParamLocs == {"path", "query", "header", "cookie"}
+BodyLocs  == {"form", "multipart"}
+Locs   == ParamLocs \cup BodyLocs
 Kinds  == {"str", "int", "float", "bool", "enum", "enumi", "date", "datetime", "uuid", "list", "listint", "listenum",
            "null", "any", "const", "uis", "model"}
 Styles == {"class", "literal"}
 
 \* ---- which parameters the generator accepts (Property.validate_location; a union is allowed where every member is)
 BaseAllowed(kind) ==
-  IF kind \in {"str", "int", "float", "bool", "enum", "enumi", "uuid", "uis"} THEN Locs
+  IF kind \in {"str", "int", "float", "bool", "enum", "enumi", "uuid", "uis"} THEN ParamLocs
   ELSE IF kind = "null" THEN {"query", "header", "cookie"}
   ELSE {"path", "query", "cookie"}
 IsUnion(p) == p.kind = "uis" \/ (p.nul /\ p.kind # "null")
-Accepted(p) == /\ p.loc \in (IF p.nul THEN BaseAllowed(p.kind) \cap BaseAllowed("null") ELSE BaseAllowed(p.kind))
-               /\ (p.loc = "path" => p.req)
+Accepted(p) == IF p.loc \in BodyLocs THEN ~(p.kind = "null" /\ p.nul)              \* a property of a body model: every kind
+               ELSE /\ p.loc \in (IF p.nul THEN BaseAllowed(p.kind) \cap BaseAllowed("null") ELSE BaseAllowed(p.kind))
+                    /\ (p.loc = "path" => p.req)
 
 \* ---- value classes admitted by the annotation
 BaseAtoms(kind) ==
@@ -71,12 +77,19 @@ Guard == /\ stage = "call" /\ stage' = "guarded"
          /\ UNCHANGED <<p, a, out>>
 
 \* the per-kind transform
+\* transform_multipart per kind: text parts (str(x) / isoformat()), str(bool), JSON parts for arrays and models, str(None).  (Before the repair
+\* recorded in known_findings.json date / date-time / uuid were handed to httpx as bare bytes / str, which it sends as a FILE part called "upload".)
+MultipartForm(c) == CASE c \in {"str", "int", "float", "enumS", "enumI", "date", "datetime", "uuid"} -> "text" [] c = "bool" -> "booltext"
+                      [] c \in {"list", "emptylist", "model"} -> "jsonpart"
+                      [] c = "none" -> "nonetext" [] OTHER -> c
 QueryJson(c) == CASE c \in {"date", "datetime", "uuid"} -> "text" [] c = "enumS" -> "str" [] c = "enumI" -> "int"
                   [] c = "model" -> "dict" [] OTHER -> c
 Transform ==
   /\ stage = "guarded" /\ stage' = "transformed"
   /\ v' = CASE v = "skipped" -> "skipped"
             [] p.loc \in {"header", "cookie"} -> (IF HasHeaderTransform(p) THEN "text" ELSE v)
+            [] p.loc = "form" -> QueryJson(v)                                                           \* to_dict(): the JSON forms, a model stays a dict
+            [] p.loc = "multipart" -> MultipartForm(v)
             [] p.loc = "query" -> (IF p.kind = "model" /\ ~IsUnion(p) /\ v = "model" THEN "spread"     \* json_is_dict: params.update(to_dict())
                                    ELSE QueryJson(v))
             [] OTHER -> v                                                                               \* path: no transform, str.format
@@ -91,6 +104,14 @@ Encode ==
         [] p.loc = "cookie" -> (IF v \in {"text", "str", "enumS"} THEN Placed("canon")
                                 ELSE IF v = "none" THEN Placed("bare")                                 \* a cookie without a value
                                 ELSE Raise)                                                            \* http.cookiejar wants a string
+        [] p.loc = "form"   -> (IF v \in {"unset", "emptylist"} THEN NotSent                             \* the key is left out / no item, no key
+                                ELSE IF v = "none" THEN Placed("empty")                                \* httpx writes None as an empty value
+                                ELSE IF v = "dict" THEN Placed("pyrepr")                               \* str(dict) of a nested model
+                                ELSE Placed("canon"))
+        [] p.loc = "multipart" -> (IF v = "unset" THEN NotSent
+                                   ELSE IF p.kind \in {"any", "const"} /\ p.nul THEN Raise             \* isinstance(x, Any) / isinstance(x, Literal[...]) in the union dispatch
+                                   ELSE CASE v = "text" -> Placed("canon") [] v = "booltext" -> Placed("pycap") [] v = "rawbytes" -> Placed("filepart")
+                                          [] v = "jsonpart" -> Placed("json") [] v = "nonetext" -> Placed("nonetext") [] OTHER -> Raise)
         [] p.loc = "query"  -> (IF v \in {"unset", "none", "emptylist"} THEN NotSent                    \* the final dict filter; no item, no key
                                 ELSE IF v = "spread" THEN Placed("spread")
                                 ELSE IF v = "dict" THEN Placed("pyrepr")                               \* str(dict) of a model inside a union
@@ -106,23 +127,26 @@ Done == stage = "encoded"
 
 \* ------------------------------------------------------------------ laws
 \* forms from which a server that decodes per the schema recovers the argument
-Recoverable == {"canon", "pycap", "spacedt", "spread"}
+Recoverable == {"canon", "pycap", "spacedt", "spread", "json", "filepart"}
 \* recorded defects of the pinned tree (known_findings.json): the laws are stated for everything else, and KnownExact says the
 \* list is not wider than the defects (a repair in the code makes the model drift, which forces this list to shrink)
 KnownRejected == /\ a \notin {"U"}
                  /\ \/ (p.loc \in {"header", "cookie"} /\ IsUnion(p) /\ PyClass(p, a) \notin {"str", "enumS"} /\ ~(p.loc = "cookie" /\ a = "N"))
                     \/ (p.loc = "header" /\ a = "N")
                     \/ (p.loc = "cookie" /\ p.kind \in {"list", "listint", "listenum", "model"} /\ a # "N")
+                    \/ (p.loc = "multipart" /\ p.kind = "const" /\ p.nul)
 KnownGarbage  == \/ (p.loc = "path" /\ p.kind \in {"list", "listint", "listenum", "model"})
                  \/ (p.loc = "query" /\ p.kind = "model" /\ IsUnion(p) /\ a = "m")
+                 \/ (p.loc = "form" /\ p.kind = "model" /\ a = "m")
 Judged == p.kind # "any"               \* `Any` admits everything; the statement cannot mean that everything is encodable
 \* W1 (C11): every value the annotation admits is accepted by the encoder
 W1 == (Done /\ Judged /\ ~KnownRejected) => out.t # "raise"
 \* W2 (C03): a supplied value is placed in a form that determines it
-W2 == (Done /\ Judged /\ ~KnownRejected /\ ~KnownGarbage /\ a \notin {"U", "N", "l0"}) => (out.t = "placed" /\ out.f \in Recoverable)
+W2 == (Done /\ Judged /\ ~KnownRejected /\ ~KnownGarbage /\ a \notin {"U", "N"} /\ ~(a = "l0" /\ p.loc # "multipart")) => (out.t = "placed" /\ out.f \in Recoverable)
 \* W3 (C10): an omitted optional argument is not transmitted; None is never transmitted as a value in the query
 W3 == Done => /\ (a = "U" => out = NotSent)
               /\ ((a = "N" /\ p.loc = "query") => out = NotSent)
+              /\ ((a = "N" /\ p.loc \in BodyLocs /\ Judged /\ ~KnownRejected) => out.t = "placed")        \* a body property that is None is transmitted (as empty / "None"), not dropped
 KnownExact == Done => /\ (KnownRejected => out.t = "raise")
                       /\ (KnownGarbage /\ ~KnownRejected /\ a \notin {"U", "N"} => out = Placed("pyrepr"))
 Terminates == <>Done
